@@ -155,6 +155,11 @@ def analyse_crate(prog, crate, jobs=None, with_defs=False):
         prog.crate("lexgen_util")        # the runtime's bodies must be at hand before expansions are read
     except Exception:
         pass
+    try:
+        from . import rules_runtime as _rr
+        _rr.use_saved_layout(prog)        # where the saved match keeps its four components
+    except Exception:
+        pass
     exps = lts.find_expansions(crate)
     if not exps:
         return []
